@@ -34,6 +34,17 @@ CHECKS = {
         note="The socket is a scripted object (no kernel); errno set is the Linux one; sleep between retries is virtual.",
         design_ref="DESIGN.md section 3 C17",
     ),
+    "C06": dict(
+        engine="S",
+        technique="exhaustive input enumeration (field products, all fragmentations of small messages, all single-field mutations) against a reference decoder",
+        text="Full product of boundary values of every header field x payloads around the compression threshold x 9 annotation dictionaries x correlation id x "
+             "compression x MAX_MESSAGE_SIZE in {default, =size, =size-1}, each encoded by the real SendingMessage and read back by the real recv_stub over a "
+             "fragmenting fake socket (every single cut near the structure boundaries; every cut pair / triple for small messages) with a sentinel message behind "
+             "it; conversely every single-field / chunk-length / truncation / prefix mutation of representative encodings is given to both real decoders and the "
+             "accept/reject verdict, decoded fields, bytes consumed and re-encoding are compared with an independent reference decoder.",
+        note="Reference decoder written from the documented layout; asserts enabled; payload sizes bounded (<= 1 KiB), 4 GiB lengths only as header values.",
+        design_ref="DESIGN.md section 3 C06",
+    ),
 }
 
 NOT_YET = {}
